@@ -93,6 +93,7 @@ class Rotation:
             mats.append(euler_matrix(seq, [as_cs(a, degrees) for a in row]))
         r = cls(mats, single)
         r.euler_src = (seq, [list(row) for row in arr])
+        r.leaf = True
         return r
 
     @classmethod
@@ -178,7 +179,7 @@ class Rotation:
         VV = list(V) * n if len(V) == 1 else list(V)
         out = np.empty((n, 3), dtype=object)
         for m_ in self.mats:
-            orthogonality_lemmas(m_)
+            orthogonality_lemmas(m_, getattr(self, "leaf", False))
         for i in range(n):
             A = mT(M[i]) if inverse else M[i]
             r = mv(A, [zreal(VV[i][k]) for k in range(3)])
@@ -259,7 +260,7 @@ class Rotation:
         for i, M in enumerate(self.mats):
             k = next(c.fresh)
             x, y, z, w = [z3.Real("q%s!%d" % (n, k)) for n in "xyzw"]
-            orthogonality_lemmas(M)
+            orthogonality_lemmas(M, getattr(self, "leaf", False))
             if _lemma_quat_trace():
                 for (q2, M2) in reg + [((x, y, z, w), M)]:
                     dot = x * q2[0] + y * q2[1] + z * q2[2] + w * q2[3]
@@ -268,6 +269,8 @@ class Rotation:
                     c.assume(t == dot)
                     c.assume(4 * t * t == 1 + tr)
                     c.assume(4 * dot * dot == 1 + tr)        # same lemma with the product written out (for monomial matching)
+                    if _lemma_quat_cs():
+                        c.assume(z3.And(t * t <= 1, t <= 1, t >= -1))      # Cauchy-Schwarz for unit quaternions
             reg.append(((x, y, z, w), M))
             c.assume(x * x + y * y + z * z + w * w == 1)
             Q = [[1 - 2 * (y * y + z * z), 2 * (x * y - z * w), 2 * (x * z + y * w)],
@@ -307,11 +310,61 @@ def _lemma_quat_trace():
     return _LEMMAS["qt"]
 
 
-def orthogonality_lemmas(M):
-    """Instances M^T M = I for a rotation matrix of the path, each proved by the solver from the unit-circle constraints
-    before it is assumed (they let the non-linear back ends see e.g. |R z| = 1 and trace(R^T R) = 3)."""
+def _lemma_euler_orthogonal():
+    """Generic lemma, proved once per process by z3: the Euler matrix of three unit (cos, sin) pairs is orthogonal (for
+    every sequence the repository uses).  Instances for concrete angle terms are then assumed without a solver call."""
+    if "eo" not in _LEMMAS:
+        from . import solve
+        ok = True
+        for seq in ("zxz", "ZXZ", "ZYZ", "zyx"):
+            cs = [(z3.Real("lo_c%d" % j), z3.Real("lo_s%d" % j)) for j in range(3)]
+            M = euler_matrix(seq, cs)
+            facts = [z3.simplify(sum((M[k][a] * M[k][b] for k in range(3)), ZERO)) == (1 if a == b else 0) for a in range(3) for b in range(a, 3)]
+            r, _, _ = solve.check([c_ * c_ + s_ * s_ == 1 for c_, s_ in cs] + [z3.Not(z3.And(facts))], timeout=30, solvers=("z3",))
+            ok = ok and r == "unsat"
+        _LEMMAS["eo"] = ok
+    return _LEMMAS["eo"]
+
+
+def _lemma_quat_cs():
+    """<p,q>^2 <= 1 for unit quaternions.  No back end finds it unaided; the proof is handed over as hints (Lagrange's
+    identity |p|^2|q|^2 - <p,q>^2 = sum_{i<j} (p_i q_j - p_j q_i)^2 is a polynomial identity that the monomial
+    abstraction sees by itself; the hints are |p|^2|q|^2 = 1 and the non-negativity of the six squares), after which
+    linear arithmetic over monomials closes it.  Proved once per process."""
+    if "cs" not in _LEMMAS:
+        from . import solve
+        p = z3.Reals("cs_p0 cs_p1 cs_p2 cs_p3")
+        q = z3.Reals("cs_q0 cs_q1 cs_q2 cs_q3")
+        n1, n2 = sum(a * a for a in p), sum(a * a for a in q)
+        dot = sum(a * b for a, b in zip(p, q))
+        hints = [n1 * n2 == 1]
+        for i in range(4):
+            for j in range(i + 1, 4):
+                d = p[i] * q[j] - p[j] * q[i]
+                hints.append(d * d >= 0)
+        # the hint n1*n2 == 1 is itself a consequence of n1 == 1 and n2 == 1 (checked first)
+        r0, _, _ = solve.check([n1 == 1, n2 == 1, z3.Not(n1 * n2 == 1)], timeout=20, solvers=("z3",))
+        r1, _, _ = solve.check([n1 == 1, n2 == 1] + hints + [z3.Not(dot * dot <= 1)], timeout=20, solvers=("z3",))
+        _LEMMAS["cs"] = (r0 == "unsat" and r1 == "unsat")
+    return _LEMMAS["cs"]
+
+
+def orthogonality_lemmas(M, leaf=False):
+    """Instances M^T M = I for a rotation matrix of the path (they let the back ends see |R z| = 1, trace(R^T R) = 3).
+    Matrices built directly from Euler angles are instances of the generic lemma; others are proved individually."""
     from . import solve
     c = ctx()
+    if leaf and _lemma_euler_orthogonal():
+        done = c.__dict__.setdefault("_ortho_done", {})
+        key = tuple(M[a][b].get_id() for a in range(3) for b in range(3))
+        if key in done:
+            return
+        done[key] = M
+        facts = [z3.simplify(sum((M[k][a] * M[k][b] for k in range(3)), ZERO)) == (1 if a == b else 0) for a in range(3) for b in range(a, 3)]
+        c.assume(z3.And(facts))
+        return
+    if not leaf:
+        return      # products of rotations: no instance is generated (their polynomials are too large to help)
     done = c.__dict__.setdefault("_ortho_done", {})
     key = tuple(M[a][b].get_id() for a in range(3) for b in range(3))
     if key in done:
